@@ -20,6 +20,8 @@ type Tape struct {
 	// not the one recorded at this position was added to the check after the file was written: it takes its default
 	// and consumes nothing, so older replay files keep driving the case they were recorded for.
 	Expect []string
+	// ExpectComplete: the recorded run knew optional draws, so one beyond the end of Expect drew a zero like any other
+	ExpectComplete bool
 }
 
 func NewTape(seed uint64) *Tape {
@@ -55,8 +57,14 @@ func (t *Tape) Draw(n int, label string) int {
 
 // DrawOptional is Draw for a choice that was added to a generator later (see Expect).
 func (t *Tape) DrawOptional(n int, label string, deflt int) int {
-	if t.replay && t.Expect != nil && (t.pos >= len(t.Expect) || t.Expect[t.pos] != label) {
-		return deflt
+	if t.replay && t.Expect != nil {
+		if t.pos >= len(t.Expect) {
+			if !t.ExpectComplete {
+				return deflt
+			}
+		} else if t.Expect[t.pos] != label {
+			return deflt
+		}
 	}
 	return t.Draw(n, label)
 }
